@@ -4,4 +4,5 @@ CONSTANTS
 SPECIFICATION Spec
 INVARIANT CleanIdempotent
 INVARIANT SplitReassembles
+INVARIANT MatchAgrees
 CHECK_DEADLOCK FALSE
